@@ -44,6 +44,11 @@ theorem hash_roundtrip (r r' : Repr) (h : ReprWF r) (hd : decode (encode r) = .o
   cases DRes.ok.inj hd
   exact ⟨rfl, rfl⟩
 
+/-- the round trip also holds for whatever `decode` accepts from ARBITRARY bytes (not only for `ReprWF` nodes): a node
+    read from a store re-encodes to bytes that decode to the same node — same encoding, same hash -/
+theorem C14_reencode (bs : Bytes) (r : Repr) (h : decode bs = .ok r) :
+    decode (encode r) = .ok r := decode_encode_of_decode bs r h
+
 /-- tie to the structural model: the key of a (non-empty) subtree, as defined by the hash format `Verif.Mpt.key`, is the
     hash of `hashBytes` of the stored form of its root node -/
 theorem key_eq_hash_repr (H : Bytes → Bytes) (t : Node) (pre : List Nib) (ht : t.isEmpty = false) :
